@@ -62,6 +62,13 @@ func signedHeaderWirePaths(real *types.SignedHeader) []shObs {
 			} else {
 				out = append(out, obsSH("p2p", bz, d))
 			}
+			if u := usedSignedHeader(); u != nil {
+				if err := u.UnmarshalBinary(bz); err != nil {
+					out = append(out, shObs{Path: "p2p into a used receiver", Enc: bz, Err: fmt.Errorf("UnmarshalBinary: %w", err)})
+				} else {
+					out = append(out, obsSH("p2p into a used receiver", bz, u))
+				}
+			}
 		}
 	}
 	{
@@ -83,6 +90,18 @@ func signedHeaderWirePaths(real *types.SignedHeader) []shObs {
 				out = append(out, shObs{Path: "da", Enc: bz, Err: fmt.Errorf("Unmarshal/FromProto: %w", err)})
 			} else {
 				out = append(out, obsSH("da", bz, d))
+			}
+			if u := usedSignedHeader(); u != nil {
+				var q2 pb.SignedHeader
+				err := proto.Unmarshal(bz, &q2)
+				if err == nil {
+					err = u.FromProto(&q2)
+				}
+				if err != nil {
+					out = append(out, shObs{Path: "da into a used receiver", Enc: bz, Err: fmt.Errorf("Unmarshal/FromProto: %w", err)})
+				} else {
+					out = append(out, obsSH("da into a used receiver", bz, u))
+				}
 			}
 		}
 	}
@@ -113,6 +132,13 @@ func dataWirePaths(real *types.Data) []dataObs {
 		return []dataObs{{Path: "p2p", Enc: bz, Err: fmt.Errorf("UnmarshalBinary: %w", err)}}
 	}
 	out := []dataObs{obsData("p2p", bz, d)}
+	if u := usedData(); u != nil {
+		if err := u.UnmarshalBinary(bz); err != nil {
+			out = append(out, dataObs{Path: "p2p into a used receiver", Enc: bz, Err: fmt.Errorf("UnmarshalBinary: %w", err)})
+		} else {
+			out = append(out, obsData("p2p into a used receiver", bz, u))
+		}
+	}
 	// ToProto / FromProto with an explicit protobuf round trip in between
 	bz2, err := proto.Marshal(real.ToProto())
 	if err != nil {
@@ -272,6 +298,13 @@ func headerPaths(real *types.Header) []headerObs {
 	} else {
 		out = append(out, headerObs{Path: "binary", Enc: bz, Got: specOfHeader(d), Hash: d.Hash()})
 	}
+	if u := usedHeader(); u != nil {
+		if err := u.UnmarshalBinary(bz); err != nil {
+			out = append(out, headerObs{Path: "binary into a used receiver", Enc: bz, Err: fmt.Errorf("UnmarshalBinary: %w", err)})
+		} else {
+			out = append(out, headerObs{Path: "binary into a used receiver", Enc: bz, Got: specOfHeader(u), Hash: u.Hash()})
+		}
+	}
 	bz2, err := proto.Marshal(real.ToProto())
 	if err != nil {
 		return append(out, headerObs{Path: "proto", Err: err})
@@ -306,6 +339,18 @@ func metadataPath(real *types.Metadata) metaObs {
 	return metaObs{Enc: bz, Got: specOfMetadata(d)}
 }
 
+// metadataUsed decodes the encoding into a receiver that held another metadata before.
+func metadataUsed(bz []byte) (metaObs, bool) {
+	u := usedMetadata()
+	if u == nil {
+		return metaObs{}, false
+	}
+	if err := u.UnmarshalBinary(bz); err != nil {
+		return metaObs{Enc: bz, Err: fmt.Errorf("UnmarshalBinary into a used receiver: %w", err)}, true
+	}
+	return metaObs{Enc: bz, Got: specOfMetadata(u)}, true
+}
+
 type sdObs struct {
 	Path    string
 	Err     error
@@ -329,6 +374,21 @@ func signedDataPath(real *types.SignedData) sdObs {
 	o := sdObs{Path: "da", Enc: bz, Got: specOfSignedData(d), Hash: d.Hash(), Commit: d.DACommitment()}
 	o.Payload, _ = d.Data.MarshalBinary()
 	return o
+}
+
+// signedDataUsed decodes the blob into a receiver that held another signed data before.
+func signedDataUsed(bz []byte) (sdObs, bool) {
+	u := usedSignedData()
+	if u == nil {
+		return sdObs{}, false
+	}
+	const path = "da into a used receiver"
+	if err := u.UnmarshalBinary(bz); err != nil {
+		return sdObs{Path: path, Enc: bz, Err: fmt.Errorf("UnmarshalBinary: %w", err)}, true
+	}
+	o := sdObs{Path: path, Enc: bz, Got: specOfSignedData(u), Hash: u.Hash(), Commit: u.DACommitment()}
+	o.Payload, _ = u.Data.MarshalBinary()
+	return o, true
 }
 
 type stateObs struct {
@@ -360,21 +420,30 @@ func statePaths(ctx context.Context, real types.State) []stateObs {
 			} else {
 				out = append(out, stateObs{Path: "proto", Enc: bz, Got: specOfState(&d)})
 			}
+			if u := usedState(); u != nil {
+				var q2 pb.State
+				err := proto.Unmarshal(bz, &q2)
+				if err == nil {
+					err = u.FromProto(&q2)
+				}
+				if err != nil {
+					out = append(out, stateObs{Path: "proto into a used receiver", Enc: bz, Err: err})
+				} else {
+					out = append(out, stateObs{Path: "proto into a used receiver", Enc: bz, Got: specOfState(u)})
+				}
+			}
 		}
 	}
 	{
-		im := world.NewImage()
-		st := store.New(world.NewMemDS(im))
+		st := store.New(world.NewMemDS(world.NewImage()))
 		if err := st.UpdateState(ctx, real); err != nil {
 			out = append(out, stateObs{Path: "store", Err: fmt.Errorf("UpdateState: %w", err)})
 		} else if d, err := st.GetState(ctx); err != nil {
 			out = append(out, stateObs{Path: "store", Err: fmt.Errorf("GetState: %w", err)})
 		} else {
-			var enc []byte
-			for _, k := range im.Keys("") {
-				enc, _ = im.Get(k)
-			}
-			out = append(out, stateObs{Path: "store", Enc: enc, Got: specOfState(&d)})
+			// read back through the store API only: which keys the store writes and what it puts under them is its
+			// own business as long as GetState returns the state
+			out = append(out, stateObs{Path: "store", Got: specOfState(&d)})
 		}
 	}
 	return out
